@@ -28,7 +28,7 @@ CLAIMS = {
    "Sampled, not exhaustive. Fault-free configuration (faults are C04/C05). cgo encoders (the native builds are C02)."),
  "C02": ("store-sim", "exploration", "7.2",
    "deterministic simulation: restart into a differently built binary over one simulated disk image - the cgo and the pure-Go compression back ends of the current tree are compiled into one harness binary through a build-time seam on encoder.New, the simulator decides per write session and per reader which of the four build configurations the (re)started process is; read back through the real reader and query engine against a reference store model",
-   "Seeded histories of 1-4 raw write sessions (arbitrary column payloads 0 B-300 KiB biased to the 4 KiB / 8 KiB buffers, compressible and incompressible, lz4/zstd/null, levels 0-12) and 1-4 flow-level write-outs; every session is executed by a freshly started writer of a drawn build configuration (cgo, CGO_ENABLED=0, goprobe_noliblz4, goprobe_nolibzstd; a new draw per session / one non-default build throughout / the same history written by two builds on two disks); after every session a freshly started reader of a drawn build, after the last session one of each build, reads every block back byte for byte (both reader modes, summaries) and queries the flow-level interfaces through the real engine.",
+   "Seeded histories of 1-4 raw write sessions (arbitrary column payloads 0 B-300 KiB biased to the 4 KiB / 8 KiB buffers, compressible and incompressible, lz4/zstd/null, levels 0-12) and 1-4 flow-level write-outs; every session is executed by a freshly started writer of a drawn build configuration (cgo, CGO_ENABLED=0, goprobe_noliblz4, goprobe_nolibzstd; a new draw per session / one non-default build throughout / the same history written by two builds on two disks); after every session a freshly started reader of a drawn build, after the last session one of each build, reads every block back byte for byte (both reader modes, summaries) and queries the flow-level interfaces through the real engine. A second, encoder-level variant (stream-sim, shares the wall budget) compresses generated inputs with both back ends of a method at levels 1-12 (lz4) / 1-19 (zstd) and has each frame decoded by the other back end.",
    "The four back-end files (all code that differs between the builds) run as real code; the build configuration itself is simulated (run-time switch instead of build tags), so what a CGO_ENABLED=0 linker or a missing system library does is not covered. Sampled, not exhaustive."),
  "C07": ("stream-sim", "exploration", "7.7",
    "deterministic simulation with fault injection: each compressor implementation (cgo and pure-Go back ends in one binary) driven as stateful stream code by a seeded history of Compress/Decompress/SetLevel calls with scratch buffers of drawn length/capacity and dirty contents, destination writers that fail after j bytes and source readers with short reads, errors and EOF mid-block; round-trip oracle incl. the call after a failed call",
@@ -110,7 +110,7 @@ CLAIMS = {
 
 ENGINES = {
  "store-sim": ("harness/store", "real gpfile/DBWriter/reader/listing/query/CSV-import code over the simulated disk; seeded histories of write sessions, restarts, kills, torn writes and I/O errors"),
- "stream-sim": ("harness/enc", "real compressor implementations (cgo and pure-Go back ends compiled into one binary through the build-configuration seam) driven as stateful stream code with dirty scratch buffers and fault-injecting writers/readers"),
+ "stream-sim": ("harness/enc", "real compressor implementations (cgo and pure-Go back ends compiled into one binary through the build-configuration seam) driven as stateful stream code with dirty scratch buffers and fault-injecting writers/readers; also serves the encoder-level variant of C02 (frames written by one back end decoded by the other)"),
  "merge-sim": ("harness/merge", "real MergeDatabases over a read-only source disk and a destination disk; generated database pairs; kills at every structural operation"),
  "capture-sim": ("harness/capture", "real capture manager (three-point lock, packet loop, local buffer, flow log, rotation goroutine, write-out handler, DB writer, live-query path) with simulated packet sources, fake clock, simulated disk and a seeded scheduler at every seam (source calls, mutexes via simsync, file-system operations)"),
  "dist-sim": ("harness/dist", "real distributed query runner (cmd/global-query), API client querier and HTTP client stack over a simulated transport and fake clock; reply order, delays, losses, errors, partitions and semaphore time-outs decided by the simulator; also serves the distributed variant of C31"),
